@@ -75,6 +75,7 @@ macro_rules! dispatch {
             "C05" => $f::<props::c05::C05>($($args),*),
             "C06" => $f::<props::c06::C06>($($args),*),
             "C07" => $f::<props::c07::C07>($($args),*),
+            "C08" => $f::<props::c08::C08>($($args),*),
             "C09" => $f::<props::c09::C09>($($args),*),
             "C10" => $f::<props::c10::C10>($($args),*),
             "C11" => $f::<props::c11::C11>($($args),*),
@@ -115,7 +116,9 @@ fn main() {
             let cases: u64 = arg(&args, "--cases").and_then(|s| s.parse().ok()).unwrap_or(10);
             let out = arg(&args, "--out").unwrap();
             dispatch!(prop.as_str(), worker_for, tier, seed, index, cases, &out);
-            let _ = std::fs::remove_dir_all(world::scratch_root());
+            if std::env::var("KVH_KEEP_DIRS").is_err() {
+                let _ = std::fs::remove_dir_all(world::scratch_root());
+            }
         }
         "replay" => {
             hooks::install(Some(&keyfile));
@@ -124,7 +127,9 @@ fn main() {
             let rf: fw::ReplayFile = serde_json::from_str(&std::fs::read_to_string(file).unwrap()).unwrap();
             let prop = rf.property.clone();
             let violated = dispatch!(prop.as_str(), replay_for, &rf, times);
-            let _ = std::fs::remove_dir_all(world::scratch_root());
+            if std::env::var("KVH_KEEP_DIRS").is_err() {
+                let _ = std::fs::remove_dir_all(world::scratch_root());
+            }
             std::process::exit(if violated { 1 } else { 0 });
         }
         _ => {
